@@ -52,7 +52,24 @@ fn main() {
             let c = build(shape, &ids, &params);
             let (res, rdeg) = vh::residual(&c, &x);
             let (rows, jdeg) = vh::jacobian_rows(&c, &x);
-            if rdeg || jdeg || res.iter().any(|v| !v.is_finite()) {
+            // degeneracy is decided by the independent specification (documented guard bands), not by
+            // the implementation's own flag: a linearisation switched off at a healthy configuration is a
+            // violation, not a reason to skip
+            let spec_guard = {
+                let g = ezpz_verif_harness::geom::geom_err(&c, &x, scale);
+                g.degenerate || ezpz_verif_harness::geom::in_guard_band(&c, &x)
+            };
+            if (rdeg || jdeg) && !spec_guard {
+                out.push(Violation {
+                    property: "C13",
+                    what: format!("{shape}: the evaluation is flagged degenerate (residual {rdeg}, derivatives {jdeg}) at a configuration outside the documented degeneracies"),
+                    signature: format!("spurious-degenerate:{shape}"),
+                    system: Some(System::default_cfg(vec![ConstraintRequest::highest_priority(c)], x.iter().enumerate().map(|(i, v)| (i as u32, *v)).collect(), "c13")),
+                    extra: format!("ids {:?}", ids),
+                });
+                continue;
+            }
+            if spec_guard || rdeg || jdeg || res.iter().any(|v| !v.is_finite()) {
                 skipped_degenerate += 1;
                 continue;
             }
